@@ -18,6 +18,8 @@ def schedules(pid, tier, seed):
     if pid == 'C13':
         for i in range(48 if q else 320):
             runs.append(g.pace(i + 1, group=(i % 6 == 5)))
+        for i in range(6 if q else 36):   # a busy indication in the middle of a lost-resend
+            runs.append(g.busy_in_resend(1000 + i))
     elif pid == 'C14':
         for i in range(64 if q else 400):
             runs.append(g.history(i + 1, group=(i % 6 == 5), n=50 if i % 10 else 300))
